@@ -123,10 +123,11 @@ def make_generator(values, block_len, block):
     return TableGenerator()
 
 
-def make_channel(taps, block_len, block):
+def make_channel(taps, block_len, block, vals=None):
+    """taps: [[delay, [re, im]], ...] as emitted; `vals` overrides the tap values (random extension)"""
     from pyphysim.channels import fading
     delays = np.array([t[0] for t in taps], dtype=float)
-    vals = gint([t[1] for t in taps])
+    vals = gint([t[1] for t in taps]) if vals is None else np.asarray(vals, dtype=complex)
     gen = make_generator(vals, block_len, block)
     powers_db = -3.0 * np.arange(len(taps))
     ch = fading.TdlChannel(gen, tap_powers_dB=powers_db, tap_delays=delays, Ts=1.0)
@@ -261,10 +262,42 @@ def run_receiver(o, tx, m, d, known):
         raise Bad("OneTapExact: equalised symbols are not the transmitted symbols followed by zeros")
 
 
+def run_random(o, m, d, rng, known):
+    """(rel) The same configuration, data length and tap delays with RANDOM complex data and taps (not on the integer
+    lattice).  No oracle is needed: the expectation is the property itself - the symbols followed by zeros."""
+    from pyphysim.modulators.ofdm import OfdmOneTapEqualizer
+    N, cp, u, L, _ = m["input"]["id"]
+    ns = m["pad"]["out"]["ns"]
+    x = rng.uniform(-1, 1, L) + 1j * rng.uniform(-1, 1, L)
+    want = np.concatenate([x, np.zeros(ns * u - L)])
+    tx = np.asarray(o.modulate(x.copy()))
+    ch = d["rx"]["ch"]
+    if not ch["taps"]:
+        if not close(np.asarray(o.demodulate(tx.copy())), want):
+            raise Bad("RoundTrip (random complex data): demodulate(modulate(x)) is not x followed by zeros")
+        return
+    if "eq" not in d:
+        return
+    k = len(ch["taps"])
+    # first tap dominant (|h0| = 3 > sum of the others <= 2): the response cannot vanish, condition number <= 5
+    vals = np.concatenate([[3 * np.exp(2j * np.pi * rng.uniform())],
+                           rng.uniform(0.2, 1, k - 1) * np.exp(2j * np.pi * rng.uniform(size=k - 1))])
+    chan, _, _ = make_channel(ch["taps"], N + cp, ch["block"], vals)
+    rx = np.asarray(chan.corrupt_data(tx.copy()))[:len(tx)].copy()
+    with np.errstate(all="ignore"):
+        eq = np.asarray(OfdmOneTapEqualizer(o).equalize_data(np.asarray(o.demodulate(rx)), chan.get_last_impulse_response()))
+    if not close(eq, want):
+        if d["eq"]["out"]["corner"]:
+            known.append("OneTapExact fails for cp = fft = memory (random complex taps): truncated frequency response")
+            return
+        raise Bad("OneTapExact (random complex data and taps): equalised symbols are not the transmitted symbols")
+
+
 def check_chain(case):
     """case = {"mod": {step: edge}, "rcv": [ {step: edge}, ... ]} -> list of (what, fid, receiver index)"""
     m = case["mod"]
     bad = []
+    rng = np.random.RandomState((case.get("seed", 0) * 7919 + sum((i + 1) * int(v) for i, v in enumerate(m["input"]["id"][:4]))) % (2 ** 31))
     try:
         o, tx, _ = run_modulator(m)
     except Bad as b:
@@ -276,12 +309,13 @@ def check_chain(case):
         known = []
         try:
             run_receiver(o, tx, m, d, known)
+            run_random(o, m, d, rng, known)
             okc += 0 if known else 1
         except Bad as b:
             bad.append((b.what, b.fid, i))
         except Exception as ex:
             bad.append((f"receiver raised {type(ex).__name__}: {ex}", None, i))
-        bad += [(w, FID, i) for w in known[-1:]]
+        bad += [(w, FID, i) for w in known[:1]]
     return bad, okc
 
 
@@ -371,6 +405,7 @@ def partition(job):
             res["ok"] += 1
             res["keys"].append(f"{e['step']}{e['id'][:3]}")
     for c in cs:
+        c["seed"] = kw.get("seed", 0)
         bad, okc = check_chain(c)
         res["chains"] += 1 + len(c["rcv"])
         res["ok"] += okc
@@ -379,7 +414,7 @@ def partition(job):
         res["keys"] += [ident + tlc.json.dumps(d["rx"]["ch"], sort_keys=True) for d in c["rcv"]]
         res["excluded"] += sum(1 for d in c["rcv"] if d["rx"]["ch"]["taps"] and "eq" not in d)
         for what, fid, i in bad[:2]:
-            slim = {"mod": c["mod"], "rcv": [c["rcv"][i]] if i >= 0 else []}
+            slim = {"mod": c["mod"], "rcv": [c["rcv"][i]] if i >= 0 else [], "seed": c["seed"]}
             res["viol"].append((what, fid, slim))
         if res["sample"] is None and c["rcv"]:
             d = c["rcv"][-1]
@@ -478,6 +513,8 @@ def run(ctx):
                         "laws for all Gaussian-integer data follow from the unit patterns by linearity (stated in Ofdm.tla)",
                         "tap layouts whose response vanishes on a used bin are replaced by a dominant-first-tap layout in the spec",
                         "fft sizes that are not powers of two: index layer exact, intermediate numerics evaluated in Python (rel)",
+                        "every replayed chain is repeated with random complex data / taps (same delays, dominant first tap) against "
+                        "the property's own expectation 'symbols followed by zeros' (rel)",
                         "the user crops the channel output to the emitted length before demodulating (required by _remove_CP)"]
     jobs = plan(ctx.tier, ctx.seed)
     devs = [(dev, sorted(cfgs), allowed) for dev, (cfgs, allowed) in DEV_REFUTED_BY.items()]
